@@ -1418,6 +1418,9 @@ func (w *world) doDone(ci, outcome, rep int, replyKeys []int) {
 		}
 	}
 	attempted := len(w.cc.created) + w.cc.refused
+	if !sl.alive && attempted != 0 {
+		w.fail("C07|C03", "A.done.departed", "%s: the completion of a call on a channel that has left the pool created a connection (C03: a channel is added only to re-create an emptied pool or by a saturated call; C07: a refresh needs a channel)", what)
+	}
 	if !enabled && attempted != 0 {
 		w.fail("C07", "A.done.disabled", "%s: detection disabled but a completion created a connection", what)
 	}
